@@ -177,7 +177,7 @@ def check_program(case: dict) -> Verdict:
                 ops = "+".join(sorted({o for ops in program for o in ops}))
                 v.fail(
                     f"C17:{kind}:not-linearizable:{ops}",
-                    f"{kind} init={init} program={program}: outcome {outcome} under schedule {choices} equals no sequential ordering (sequential outcomes: {sorted(allowed)[:4]})",
+                    f"{kind} init={init} program={program}: outcome {outcome} under schedule {choices} equals no sequential ordering (sequential outcomes: {sorted(allowed, key=repr)[:4]})",
                 )
                 break
     finally:
